@@ -95,6 +95,17 @@ def make_computer(c):
         if c.get("L") is not None:
             kw["frame_length_ms"] = ms(c["L"])
         kw["kaldi_shift"] = bool(c.get("kaldi", False))
+    if c.get("spelling"):
+        # the same options in another spelling: flags as 0/1 or numpy bools, durations as numpy floats
+        import numpy as np
+        conv = {"int": int, "npbool": np.bool_}[c["spelling"]]
+        for k in ("include_energy", "pad_to_nearest_power_of_two", "use_log", "use_power", "kaldi_shift"):
+            if k in kw:
+                kw[k] = conv(kw[k])
+        for k in ("frame_shift_ms", "frame_length_ms"):
+            if k in kw:
+                kw[k] = np.float64(kw[k])
+    if c["kind"] == "stft":
         comp = compute.STFTFrameComputer(bank, **kw)
         if c.get("L") is not None and comp.frame_length != c["L"]:
             raise AssertionError("frame length %r != %r" % (comp.frame_length, c["L"]))
